@@ -234,6 +234,52 @@ def ops_oracle(c, bad):
                 break
     if oo.get("jsonbad"):
         bad.append(("ops-json", "LayoutJSON differs from the view: %s" % oo["jsonbad"]))
+    # a call sequence on ONE Map object: every layout it produces is a layout of the Map's orientation
+    # at that moment (edges strictly left to right, distinct coordinates, inside width x height)
+    for n, st in enumerate(oo.get("seq") or []):
+        pre = "call sequence %s, step %d (%s, map %s)" % (oi.get("seq"), n, st["op"], "reversed" if st.get("flip") else "as built")
+        if st.get("bad"):
+            bad.append(("seq-panic", "%s: %s" % (pre, st["bad"][:120])))
+            break
+        if st["op"] in ("Y", "V", "L"):
+            nd = {x["k"]: x for x in st.get("nodes") or []}
+            w, h = st.get("wh", [0, 0])
+            if set(nd) != keyset or w != nlayer:
+                bad.append(("seq-layout", "%s: node set or width %r (layers %d)" % (pre, w, nlayer)))
+                break
+            pos = {}
+            ok = True
+            for k in keys:
+                xk, yk = nd[k]["x"], nd[k]["y"]
+                if not (0 <= xk < w and 0 <= yk < h):
+                    bad.append(("seq-layout", "%s: node %d at (%d,%d) outside %dx%d" % (pre, k, xk, yk, w, h)))
+                    ok = False
+                    break
+                if (xk, yk) in pos:
+                    bad.append(("seq-layout", "%s: nodes %d and %d both at (%d,%d)" % (pre, pos[(xk, yk)], k, xk, yk)))
+                    ok = False
+                    break
+                pos[(xk, yk)] = k
+            for u in keys:
+                if not ok:
+                    break
+                for v in outs[u]:
+                    a, b = (v, u) if st.get("flip") else (u, v)      # an edge of the current orientation
+                    if not nd[a]["x"] < nd[b]["x"]:
+                        bad.append(("seq-layout", "%s: edge %d->%d of the map's current orientation is drawn right to left "
+                                                  "(x %d -> %d)" % (pre, a, b, nd[a]["x"], nd[b]["x"])))
+                        ok = False
+                        break
+            if not ok:
+                break
+        elif st["op"] == "S":
+            lay = {}
+            for i, l in enumerate(st.get("layers") or []):
+                for v in l:
+                    lay[v] = i
+            if set(lay) != keyset or any(not (lay[v] < lay[u] if st.get("flip") else lay[u] < lay[v]) for u in keys for v in outs[u]):
+                bad.append(("seq-layers", "%s: SortedLayers does not order the map's current orientation" % pre))
+                break
     # Closure
     clo = oi["clo"]
     if any(t not in keyset for t in clo):
@@ -452,10 +498,21 @@ def coq_ops(c, keys):
     nodes = ";".join("mkN %d %s %s %s %s %s %s [] [] 0 0" % (n["k"], cl(n["ins"]), cl(n["outs"]), cl(n["ai"]), cl(n["ao"]),
                                                           cl(n["ci"]), cl(n["co"])) for n in oo.get("clo") or [])
     e, cr, l = (list(oo.get("clon") or []) + [0, 0, 0])[:3]
-    return "(mkO %d %s %s %s %s %s %s %d %s %s %s [%s] (%d, %d, %d)%%nat)" % (
+    sops, start_rev = [], False
+    for st in oo.get("seq") or []:
+        if st["op"] == "V":
+            start_rev = True
+        elif st["op"] == "R":
+            sops.append("SRev")
+        elif st["op"] in ("Y", "L"):
+            sops.append("SLay [%s] %d (%d)" % (";".join("(%d,(%d%%nat,(%d)%%Z))" % (x["k"], max(x["x"], 0), x["y"])
+                                                         for x in st.get("nodes") or []), max(st["wh"][0], 0), st["wh"][1]))
+        elif st["op"] == "!":
+            sops.append("SLay [] 0 (-1)")
+    return "(mkO %d %s %s %s %s %s %s %d %s %s %s [%s] (%d, %d, %d)%%nat %s [%s])" % (
         max(oi["rm"], 0) if oi["rm"] >= 0 else 4294967295, coq_gobs(oo["rm"]), cl(oi["sub"]), coq_gobs(oo["sub"]), ren, err,
         "true" if oi.get("inj") else "false", res, coq_gobs(oo["ren"]), cl(oi["clo"]),
-        "true" if oo.get("clobad") else "false", nodes, e, cr, l)
+        "true" if oo.get("clobad") else "false", nodes, e, cr, l, "true" if start_rev else "false", "; ".join(sops))
 
 
 def to_coq(c):
